@@ -28,8 +28,9 @@ Consume == l' = l + 1 /\ UNCHANGED shard
 FailLine(prop, clause) == PrintT(<<"JDV-FAIL", Rec.sess, prop, clause>>)
 NoteLine(prop, what)   == PrintT(<<"JDV-NOTE", Rec.sess, prop, what>>)
 (* Check(c, prop, clause): TRUE always; prints a failure line when c is false *)
-Check(c, prop, clause) == c \/ FailLine(prop, clause)
-Note(c, prop, what)    == c \/ NoteLine(prop, what)
+(* IF, not a disjunction: in an action TLC explores BOTH disjuncts of  c \/ Print  and would print always *)
+Check(c, prop, clause) == IF c THEN TRUE ELSE FailLine(prop, clause)
+Note(c, prop, what)    == IF c THEN TRUE ELSE NoteLine(prop, what)
 
 CoreInit == shard \in 0..(NShards - 1) /\ l = 1
 Done == ~More /\ l = Len(Shards[shard]) + 1 /\ PrintT(<<"JDV-DONE", shard, l - 1>>) /\ UNCHANGED <<shard, l>>
